@@ -206,17 +206,48 @@ def run(ctx):
                             )
 
 
+_LOSSLESS_CASTS = {"float", "np.float64", "numpy.float64", "np.double", "np.longdouble", "np.float128"}
+_LOSSY_CASTS = {
+    "np.float32", "numpy.float32", "np.float16", "numpy.float16", "np.half", "np.single", "int", "round",
+    "np.int8", "np.int16", "np.int32", "np.uint8", "np.uint16", "np.uint32", "math.floor", "math.ceil", "math.trunc",
+}
+
+
+def _strip_cast(ctx, upd, val, rule, site):
+    """Removes value-preserving casts around the appended reward; a narrowing
+    cast is reported (None returned)."""
+    for _ in range(4):
+        if isinstance(val, ast.Call) and len(val.args) >= 1:
+            fn = ast.unparse(val.func)
+            if fn in _LOSSLESS_CASTS and len(val.args) == 1:
+                val = _expand(ctx, upd, val.args[0])
+                continue
+            if fn in _LOSSY_CASTS:
+                ctx.chk.violation(
+                    rule, upd, val,
+                    f"the reward is stored through `{fn}(...)`: the per-step values are rounded (float32 holds "
+                    "integers exactly only up to 2**24), so their sum is no longer the negated objective",
+                    loc=upd.loc(site),
+                )
+                return None
+        break
+    return val
+
+
 def _makespan_shape(ctx, mk):
     chk = ctx.chk
     upd = mk.methods.get("update")
     if upd is None:
         raise AnalysisError("MakespanReward.update vanished")
+    upd = ctx.norm.flat(upd)
     sop = upd.params[1]
     app = [n for n in own_nodes(upd.node) if isinstance(n, ast.Call) and ast.unparse(n.func) == "self.rewards.append"]
     store = [n for n in own_nodes(upd.node) if isinstance(n, ast.Assign) and ast.unparse(n.targets[0]) == "self.current_makespan"]
     if len(app) != 1 or len(store) != 1:
         raise AnalysisError("MakespanReward.update: append/store not found exactly once")
-    val = _expand(ctx, upd, app[0].args[0])
+    val = _strip_cast(ctx, upd, _expand(ctx, upd, app[0].args[0]), "R13.c", app[0])
+    if val is None:
+        return
     new = store[0].value
     new_e = _expand(ctx, upd, new)
     old_names = {
@@ -267,11 +298,14 @@ def _idle_shape(ctx, it):
     upd = it.methods.get("update")
     if upd is None:
         raise AnalysisError("IdleTimeReward.update vanished")
+    upd = ctx.norm.flat(upd)
     sop = upd.params[1]
     app = [n for n in own_nodes(upd.node) if isinstance(n, ast.Call) and ast.unparse(n.func) == "self.rewards.append"]
     if len(app) != 1:
         raise AnalysisError("IdleTimeReward.update: append not found exactly once")
-    val = _expand(ctx, upd, app[0].args[0])
+    val = _strip_cast(ctx, upd, _expand(ctx, upd, app[0].args[0]), "R13.d", app[0])
+    if val is None:
+        return
     if not (isinstance(val, ast.UnaryOp) and isinstance(val.op, ast.USub)):
         if isinstance(val, ast.Name) or (isinstance(val, ast.BinOp) and isinstance(val.op, ast.Sub)):
             # several definitions (if/else) - look at each
